@@ -104,7 +104,7 @@ def run(ctx, factor):
             if a != ("ok", exp):
                 rep.violate("valid_addr-rule", dict(case, rule=doc), {"addresses": exp}, {"addresses": a})
         rep.case(case, s[0] == "ok", tags=["range-width=%s" % ("0" if lo == hi else "1" if hi == lo + 1 else "n")])
-        if rep.violations and factor > 1:
+        if rep.has_new() and factor > 1:
             return
 
 
